@@ -18,6 +18,7 @@ def run(run, tier, seed, args):
     run.assumptions += [
         "assumed driver contracts: do_rollback / do_commit end the transaction or raise; _assert_and_set_isolation_level sets the level or raises",
         "event listeners (pool.dispatch.reset) and logging do not touch the ghost state",
-        "_finalize_fairy, _ConnectionRecord.checkin and Connection.close (the call site that passes transaction_reset=True) are covered by the bounded complement only",
+        "_finalize_fairy and Connection.close (the call site that passes transaction_reset=True) are covered by the bounded complement only; _ConnectionRecord.checkin (runs and empties finalize_callback) is under proof in C26",
+        "DefaultDialect._set_connection_characteristics: the two list comprehensions are over-approximated (same length, arbitrary tuples, may raise); characteristic.set_connection_characteristic is a no-op on the modelled state; functools.partial is an uninterpreted pure function of its arguments",
         "server-side session state on real backends and GC timing are outside",
     ]
